@@ -231,7 +231,10 @@ class Report:
         '''Merge the standard dict returned by a scenario child.'''
         self.evaluations += value.get('evaluations', 1)
         for k, v in (value.get('counters') or {}).items():
-            self.counters[k] += v
+            if k.startswith('max_'):
+                self.counters[k] = max(self.counters[k], v)
+            else:
+                self.counters[k] += v
         for s in value.get('sigs') or ():
             self.sigs.add(s if isinstance(s, str) else digest(s))
         for v in value.get('violations') or ():
